@@ -6,6 +6,7 @@ import (
 	"strings"
 	"time"
 	stdUnicode "unicode"
+	"unicode/utf8"
 
 	"golang.org/x/text/encoding/unicode"
 )
@@ -20,6 +21,8 @@ const (
 	volumeDescriptorBodySize             = sectorSize - volumeDescriptorHeaderSize
 	pathTableItemsLimit                  = 0x10000
 	maxDirEntrySize            sizeBytes = 0xFF // length of directory record is stored in one byte
+	volumeIdentifierSize       sizeBytes = 32
+	volumeSetIdentifierSize    sizeBytes = 128
 
 	volumeTypeBoot          byte = 0
 	volumeTypePrimary       byte = 1
@@ -224,7 +227,7 @@ func (e pathTableEntry) encodeOrdered(enc *iso9660encoder, order binary.AppendBy
 func (pvd primaryVolumeDescriptorBody) encode(enc *iso9660encoder) {
 	enc.appendByte(0) // reserved
 	enc.appendStrA(pvd.SystemIdentifier, 32)
-	enc.appendStrD(pvd.VolumeIdentifier, 32)
+	enc.appendStrD(pvd.VolumeIdentifier, volumeIdentifierSize)
 	enc.appendZeroes(8) // reserved
 	enc.appendUint32LSBMSB(uint32(pvd.VolumeSpaceSize))
 	enc.appendString(pvd.EscapeSequences, 32, 0) // for joliet
@@ -240,7 +243,7 @@ func (pvd primaryVolumeDescriptorBody) encode(enc *iso9660encoder) {
 
 	enc.appendEncodable(pvd.RootDirectoryEntry, 34)
 
-	enc.appendStrD(pvd.VolumeSetIdentifier, 128)
+	enc.appendStrD(pvd.VolumeSetIdentifier, volumeSetIdentifierSize)
 	enc.appendStrA(pvd.PublisherIdentifier, 128)
 	enc.appendStrA(pvd.DataPreparerIdentifier, 128)
 	enc.appendStrA(pvd.ApplicationIdentifier, 128)
@@ -359,6 +362,19 @@ func mangleStrA(in string, joliet bool) stringA {
 	}
 
 	return stringA(ret)
+}
+
+// volumeIdentifier makes identifier for volume descriptor from name, cutting it to fit the field.
+func volumeIdentifier(name string, joliet bool, fieldSize sizeBytes) stringD {
+	for {
+		ret := mangleStrD(name, joliet)
+		if sizeBytes(len(ret)) <= fieldSize {
+			return ret
+		}
+
+		_, lastRuneSize := utf8.DecodeLastRuneInString(name)
+		name = name[:len(name)-lastRuneSize]
+	}
 }
 
 func mangleStrD(in string, joliet bool) stringD {
